@@ -900,6 +900,12 @@ func (fr *frame) applyContract(ctr *FuncContract, callee *ssa.Function, cc *ssa.
 		g := env.tr(ctr.PureDef.E)
 		fc.fact("", "(=> %s (= %s %s))", R, resName, g.T)
 	}
+	// ghost code of the callee at its exit (`ghost-set G = E`)
+	for _, gs := range ctr.GhostSets {
+		env.ident(gs.Name)
+		gv := env.tr(gs.E)
+		st.comp["G:"+gs.Name] = gv.T
+	}
 	// pure single-result functions are mathematical functions of their arguments
 	if ctr.Pure && !ctr.Trusted && callee != nil && callee.Blocks != nil && callee.Parent() == nil && resName != "" && callee.Signature.Results().Len() == 1 && len(callee.FreeVars) == 0 && !heapDependent(callee) {
 		name, _ := fc.pureFun(callee)
